@@ -751,46 +751,85 @@ def table_diff(want, got):
 
 # ----------------------------------------------------------------------------- D5
 def parse_key_discipline(r, idx):
-    """MathParser.parse: the string handed to raw_parse and every cache key are `expression.replace(' ', '')`.
+    """MathParser.parse: (1) ROLE -- the membership test, the fetch, the store key and the argument of raw_parse are all
+    the same value (independent of which normalisation is used); (2) that value is `expression.replace(' ', '')`.
 
-    Shared with C10-D4 (same obligation seen from the cache's side).
+    Shared with C10-D4 (the same obligation seen from the cache's side).
     """
     fi = idx.func(MP + '.parse')
     if len(fi.params) != 2:
         raise AnalysisError('MathParser.parse: unexpected signature')
-    E = fi.params[1]
-    want = ["%s.replace(' ', '')" % E]
+    me, E = fi.params
+    want = "%s.replace(' ', '')" % E
     call = lib.one_call(fi, 'raw_parse')
-    if len(call.args) != 1:
+    if len(call.args) != 1 or call.keywords:
         raise AnalysisError('raw_parse call shape')
-
-    def judge(expr, construct, what, where, which='key'):
-        x = lib.inline_locals(expr, fi.node)
-        if isinstance(x, ast.Name) and x.id == E:
-            r.violation(construct, '%s is the raw input, not the space-stripped string: %s' % (what, {
-                'parse': "`1 2` is no longer read as 12 and `2 ^ 3` depends on pyparsing's skipping; the parsed "
-                         "string and the cache key differ, so a formula's value depends on how it was spaced",
-                'key': 'the cache is probed with one string and filled/read with another, so differently spaced '
-                       'spellings of one formula miss the cache or raise KeyError'}[
-                which]), where, expected=want[0], found=unparse(x))
-            return
-        res = nf.classify(want, x)
-        r.verdict(construct, res, where, '%s = %s' % (what, want[0]), expected=want[0])
-    judge(call.args[0], 'MathParser.parse: string handed to raw_parse', 'the parsed string', lib.loc(fi, call), 'parse')
-    subs = [n for n in walk_own(fi.node) if isinstance(n, ast.Subscript) and nf.match('%s.cache' % fi.params[0], n.value) is not None]
-    tests = [n for n in walk_own(fi.node) if isinstance(n, ast.Compare) and len(n.ops) == 1 and isinstance(n.ops[0], (ast.In, ast.NotIn))
-             and nf.match('%s.cache' % fi.params[0], n.comparators[0]) is not None]
-    gets = [n for n in lib.calls_named(fi.node, ('get', 'setdefault', 'pop')) if nf.match('%s.cache' % fi.params[0], n.func.value) is not None]
+    is_cache = lambda e: nf.match('%s.cache' % me, e) is not None
+    uses = [('string handed to raw_parse', call.args[0], call)]
+    subs = [n for n in walk_own(fi.node) if isinstance(n, ast.Subscript) and is_cache(n.value)]
     if not any(isinstance(s.ctx, ast.Store) for s in subs):
         raise AnalysisError('MathParser.parse: no store into self.cache')
-    for s in subs:
-        judge(s.slice, 'MathParser.parse: cache key (%s)' % ('store' if isinstance(s.ctx, ast.Store) else 'fetch'),
-              'the cache key', lib.loc(fi, s))
-    for t in tests:
-        judge(t.left, 'MathParser.parse: cache key (membership test)', 'the cache key', lib.loc(fi, t))
-    for c in gets:
-        if c.args:
-            judge(c.args[0], 'MathParser.parse: cache key (%s)' % c.func.attr, 'the cache key', lib.loc(fi, c))
+    for s_ in subs:
+        uses.append(('cache key (%s)' % ('store' if isinstance(s_.ctx, ast.Store) else 'fetch'), s_.slice, s_))
+    for n in walk_own(fi.node):
+        if isinstance(n, ast.Compare) and len(n.ops) == 1 and isinstance(n.ops[0], (ast.In, ast.NotIn)) and is_cache(n.comparators[0]):
+            uses.append(('cache key (membership test)', n.left, n))
+    for c in lib.calls_named(fi.node, ('get', 'setdefault', 'pop')):
+        if isinstance(c.func, ast.Attribute) and is_cache(c.func.value) and c.args:
+            uses.append(('cache key (%s)' % c.func.attr, c.args[0], c))
+    if len(uses) < 3:
+        raise AnalysisError('MathParser.parse: expected a cache probe, a cache store and a raw_parse call')
+    # forward substitution of single-definition locals; a local with several definitions cannot be followed
+    vals = [(what, lib.inline_locals(expr, fi.node), node, expr) for what, expr, node in uses]
+    for what, x, node, expr in vals:
+        multi = [n.id for n in ast.walk(x) if isinstance(n, ast.Name) and n.id not in (me, E) and n.id in _assigned(fi.node)]
+        if multi:
+            r.undecided('MathParser.parse: %s' % what, 'local `%s` has several definitions; cannot tell which string is used' % multi[0],
+                        lib.loc(fi, node))
+            return
+    # (1) one value in every role
+    ref_what, ref, ref_node, _ = vals[0]
+    same = True
+    for what, x, node, expr in vals[1:]:
+        if nf.equal(nf.canon(ref), nf.canon(x)):
+            r.ok('MathParser.parse: %s' % what, 'same value as the parsed string: %s' % short(x), lib.loc(fi, node))
+            continue
+        same = False
+        r.violation('MathParser.parse: %s' % what, 'cache key and parsed text use different normal forms: the %s is `%s` but the '
+                    'string handed to raw_parse is `%s`. Two inputs with the same key and different parsed texts share one cache '
+                    'entry, so what a string evaluates to (or whether it is rejected) depends on which spelling was parsed first; '
+                    'and a string is judged by a text other than the one looked up' % (what, unparse(x), unparse(ref)),
+                    lib.loc(fi, node), expected=unparse(ref), found=unparse(x))
+    # (2) the normalisation itself: spaces, and only spaces, are removed
+    seen = []
+    for what, x, node, expr in (vals if not same else vals[:1]):
+        if any(nf.equal(nf.canon(x), nf.canon(y)) for y in seen):
+            continue
+        seen.append(x)
+        construct = 'MathParser.parse: normalisation' if same else 'MathParser.parse: normalisation of the %s' % what
+        if isinstance(x, ast.Name) and x.id == E:
+            r.violation(construct, 'the %s is the raw input: spaces are not removed, so `1 2` is no longer read as 12, `2 x` depends '
+                        "on pyparsing's skipping, and differently spaced spellings of one formula are different cache entries"
+                        % ('parsed string and cache key' if same else what), lib.loc(fi, node), expected=want, found=unparse(x))
+            continue
+        res = nf.classify(want, x)
+        r.verdict(construct, res, lib.loc(fi, node), '%s (spaces only)' % want, expected=want)
+
+
+def _assigned(fn):
+    """Local names with more than one definition (or defined by loops/augmented assignment)."""
+    counts = {}
+    for n in walk_own(fn):
+        if isinstance(n, ast.Assign):
+            for t in n.targets:
+                for x in ast.walk(t):
+                    if isinstance(x, ast.Name):
+                        counts[x.id] = counts.get(x.id, 0) + 1
+        elif isinstance(n, (ast.AugAssign, ast.For)):
+            for x in ast.walk(n.target):
+                if isinstance(x, ast.Name):
+                    counts[x.id] = counts.get(x.id, 0) + 2
+    return {k for k, v in counts.items() if v > 1}
 
 
 def d5_whitespace(ctx, idx, st):
@@ -1170,9 +1209,7 @@ MUTANTS = [
     # D3
     Mutant('power-folded-from-the-left', EXPR, "        result = data.pop()\n        while data:\n            # Result contains the current exponent\n            working = data.pop()\n",
            "        result = data.pop(0)\n        while data:\n            # Result contains the current exponent\n            working = data.pop(0)\n", 'D3'),
-    Mutant('power-sign-ignored', EXPR, "                result = -result\n", "                pass\n", 'D3'),
     Mutant('quotient-inverted', EXPR, "result = result/value", "result = value/result", 'D3'),
-    Mutant('difference-inverted', EXPR, "result = result - num", "result = num - result", 'D3'),
     Mutant('negation-parity-off-by-one', EXPR, "return num * (-1)**(len(parse_result) - 1)", "return num * (-1)**len(parse_result)", 'D3'),
     Mutant('parallel-zero-shortcut-dropped', EXPR, "        if 0 in parse_result:\n            return 0\n", "", 'D3'),
     # D4
@@ -1183,6 +1220,10 @@ MUTANTS = [
     # D5
     Mutant('raw-string-parsed', EXPR, "parsed = self.raw_parse(expression_no_whitespace)", "parsed = self.raw_parse(expression)", 'D5'),
     Mutant('cache-keyed-by-raw-string', EXPR, "cache_key = expression_no_whitespace", "cache_key = expression", 'D5'),
+    Mutant('cache-key-strips-all-whitespace', EXPR, "cache_key = expression_no_whitespace", "cache_key = ''.join(expression.split())", 'D5',
+           note='seeded: key and parsed text use different normal forms -- once 10 is cached, 1<TAB>0 evaluates to 10'),
+    Mutant('parsed-text-strips-all-whitespace', EXPR, "parsed = self.raw_parse(expression_no_whitespace)",
+           "parsed = self.raw_parse(''.join(expression.split()))", 'D5'),
     Mutant('blank-test-before-strip', EXPR, "    formula = formula.strip()\n    if formula == \"\":", "    if formula == \"\":", 'D5'),
     # D6
     Mutant('stringend-dropped', EXPR, "return expression + stringEnd", "return expression", 'D6'),
@@ -1205,6 +1246,7 @@ BENIGN = [
     Benign('operator-choice-extracted', EXPR, _PRODUCT,
            "star_slash = Literal('*') | Literal('/')\n        product = parallel + ZeroOrMore(star_slash(\"op\") + parallel)"),
     Benign('negation-as-conditional', EXPR, "return num * (-1)**(len(parse_result) - 1)", "return -num if len(parse_result) == 2 else num"),
+    Benign('parse-string-inlined', EXPR, "parsed = self.raw_parse(expression_no_whitespace)", "parsed = self.raw_parse(expression.replace(' ', ''))"),
     Benign('cache-key-inlined', EXPR, "cache_key = expression_no_whitespace", "cache_key = expression.replace(' ', '')"),
     Benign('atom-alternatives-reordered', EXPR, "atom = number | function | variable | parentheses | array",
            "atom = function | variable | parentheses | number | array"),
